@@ -74,6 +74,21 @@ def check_case(ctx, case):
     if not rel_ok(z2, z0 * k, scale_v * abs(k)) or not rel_ok(s2, s0 * k * k, ssum * k * k):
         ctx.violation('scale', 'scaling observations by %r (sill, nugget by k^2): estimates %r -> %r, variances %r -> %r'
                       % (k, z0.tolist(), z2.tolist(), s0.tolist(), s2.tolist()), case)
+    # scale by a power of two far from 1 (data in small / large units): exact in floating point, so the results
+    # have to agree to rounding; a nugget or sill that becomes tiny in absolute terms is still a nugget / sill
+    k = float(ctx.rng.choice([2.0 ** -13, 2.0 ** -16, 2.0 ** -20, 2.0 ** 14]))
+    vd5 = dict(vd, sill=vd['sill'] * k * k, nugget=vd['nugget'] * k * k)
+    try:
+        z5, s5, _, _ = krig.run_transform(krig.build(dict(case, values=(values * k).tolist(), vario=vd5)), targets)
+    except (ValueError, AttributeError) as e:
+        z5 = None
+        ctx.reject('scale-extreme:' + type(e).__name__)
+    if z5 is not None:
+        reg('scale-extreme')
+        if not rel_ok(z5 / k, z0, scale_v, tol=1e-9) or not rel_ok(s5 / (k * k), s0, ssum, tol=1e-9):
+            ctx.violation('scale', 'scaling observations by %r (sill, nugget by k^2, nugget %r): estimates / k %r vs %r, '
+                          'variances / k^2 %r vs %r' % (k, vd['nugget'], (z5 / k).tolist(), z0.tolist(),
+                                                        (s5 / (k * k)).tolist(), s0.tolist()), case)
     # constant field
     cst = float(ctx.rng.choice([0.0, 3.25, -17.0]))
     z3, s3, _, _ = krig.run_transform(krig.build(dict(case, values=[cst] * len(values))), targets)
@@ -96,7 +111,7 @@ def check_case(ctx, case):
 
 
 def run(ctx):
-    for k in range(ctx.n(24, 200)):
+    for k in range(ctx.n(40, 400)):
         case = krig.gen_case(ctx.rng, nobs=(10, 36))
         # keep the systems well conditioned: metamorphic relations are compared at 1e-7
         if case['vario']['model'] == 'matern' and case['vario'].get('smoothness', 0) > 2:
